@@ -270,6 +270,7 @@ fn gen_sc(rng: &mut Rng, flavour: u8) -> Sc {
         new_to_old,
         liability,
         grouping: rng.chance(1, 3),
+        inverse_cells: rng.chance(1, 5),
     };
     let mut precisions = BTreeMap::new();
     if rng.chance(1, 2) {
@@ -428,7 +429,12 @@ fn gen_sc(rng: &mut Rng, flavour: u8) -> Sc {
                 let spec = conv_spec.as_ref().unwrap();
                 let others: Vec<&str> = COMMODITIES.iter().map(|c| c.0).filter(|c| *c != com).collect();
                 let sec = others[rng.usize(others.len())];
-                let r = Dec::new(1 + rng.below(20_000) as i64, 2);
+                // (a rate of exactly one between two commodities is still a rate)
+                let r = match rng.below(20) {
+                    0 => Dec::ONE,
+                    1 => Dec::new(100, 2),
+                    _ => Dec::new(1 + rng.below(20_000) as i64, 2),
+                };
                 let c = if has_charge && rng.chance(1, 2) { Some(Dec::new(1 + rng.below(500) as i64, 2)) } else { None };
                 let s;
                 if spec.rate == "price_of_primary" {
@@ -1298,8 +1304,10 @@ impl Check for C17 {
 
     fn generate(&self, rng: &mut Rng, _tier: Tier, _index: u64) -> Sc {
         let mut sc = gen_sc(rng, 17);
-        if rng.chance(1, 3) {
-            sc.camt = Some(crate::checks::camt::gen_sc(rng, false, false));
+        match rng.below(9) {
+            0..=2 => sc.camt = Some(crate::checks::camt::gen_sc(rng, false, false)),
+            3 => sc.viseca = Some(crate::checks::viseca::gen_sc_rules(rng)),
+            _ => {}
         }
         sc
     }
@@ -1307,6 +1315,10 @@ impl Check for C17 {
     fn execute(&self, sc: &Sc, out: &mut RunOut) {
         if let Some(c) = &sc.camt {
             crate::checks::camt::c17_leg(c, out);
+            return;
+        }
+        if let Some(v) = &sc.viseca {
+            crate::checks::viseca::c17_leg(v, out);
             return;
         }
         out.count("importer.csv");
